@@ -190,3 +190,139 @@ func H_C13_cancelled_merge_writes_nothing() {
 	}
 	vpCheckMergeOutcome(w, 2, stats, err)
 }
+
+// ---- end to end on file images: visible content is exactly as before, or the merge committed ----
+
+// vpFaultyImgStore: the in-memory DataStore of img_world.go with arbitrary failures of CreateFile,
+// OpenFile, any Read of a source, any Write of the output, Close and TombstoneFile.
+type vpFaultyImgStore struct {
+	vpImgStore
+	tombFailed bool
+}
+
+type vpFaultyReader struct {
+	vpSymFile
+}
+
+func (f *vpFaultyReader) Read(p []byte) (int, error) {
+	if nondetBool() {
+		return 0, vpInjected()
+	}
+	return f.vpSymFile.Read(p)
+}
+
+type vpFaultyWriter struct {
+	vpImgWriter
+}
+
+func (f *vpFaultyWriter) Write(p []byte) (int, error) {
+	if nondetBool() {
+		return 0, vpInjected()
+	}
+	return f.vpImgWriter.Write(p)
+}
+func (f *vpFaultyWriter) Close() error {
+	if nondetBool() {
+		return vpInjected()
+	}
+	return f.vpImgWriter.Close()
+}
+
+func (s *vpFaultyImgStore) CreateFile(ctx context.Context) (io.WriteCloser, []byte, error) {
+	if nondetBool() {
+		return nil, nil, vpInjected()
+	}
+	id := s.nCreated
+	s.nCreated++
+	return &vpFaultyWriter{vpImgWriter{s: &s.vpImgStore, id: id}}, vpPointer(id), nil
+}
+func (s *vpFaultyImgStore) OpenFile(ctx context.Context, p []byte) (io.ReadSeekCloser, error) {
+	if nondetBool() {
+		return nil, vpInjected()
+	}
+	data, ok := s.files[vpFileID(p)]
+	if !ok {
+		return nil, vpInjected()
+	}
+	return &vpFaultyReader{vpSymFile{data: data, minOff: -1}}, nil
+}
+func (s *vpFaultyImgStore) TombstoneFile(ctx context.Context, p []byte) error {
+	if nondetBool() {
+		s.tombFailed = true
+		return vpInjected()
+	}
+	delete(s.files, vpFileID(p))
+	return nil
+}
+
+type vpFaultyImgMeta struct {
+	vpImgMeta
+}
+
+func (m *vpFaultyImgMeta) Update(ctx context.Context, writes []WriteOperation, deletes []DeleteOperation) error {
+	if nondetBool() {
+		return vpInjected()
+	}
+	return m.vpImgMeta.Update(ctx, writes, deletes)
+}
+
+//vp:override (*bs.bloomEntrySets).indexRow=vpIndexRowRec
+//vp:override (*bs.bloomEntrySets).buildFilters=vpBuildFiltersRec
+//vp:override bs.encodeFilterSection=vpEncodeSectionConst
+//vp:override bs.parseFilterSection=vpParseSectionOK
+//vp:maxpaths 600000
+//vp:maxsteps 900000
+//vp:bounds two one-row files (same partition: their blocks merge; or different partitions: blocks copied) written fault-free by the real write path, then the real Merge — processPartitionBlocks / mergeDataBlocks / copyDataBlock included — against a DataStore and MetaStore in which every CreateFile, OpenFile, source Read, output Write, Close, Update and TombstoneFile call fails or succeeds arbitrarily
+func H_C13_merge_leaves_visible_content_as_before_or_commits() {
+	iw := vpNewImgWorld()
+	ra := []vpRowSpec{{id: "a0", part: "p"}}
+	rb := []vpRowSpec{{id: "b0", part: "p"}}
+	if nondetBool() {
+		rb[0].part = "q"
+	}
+	ida := iw.flushRows(ra)
+	idb := iw.flushRows(rb)
+	// from here on the stores may fail
+	fstore := &vpFaultyImgStore{vpImgStore: *iw.store}
+	fmeta := &vpFaultyImgMeta{vpImgMeta: *iw.meta}
+	iw.b.dataStore, iw.b.metaStore = fstore, fmeta
+	stats, err := iw.b.Merge(context.Background())
+	store, meta := &fstore.vpImgStore, &fmeta.vpImgMeta
+	iw.store, iw.meta = store, meta
+	committed := len(meta.files) == 1
+	if !committed {
+		// visible content exactly as before: the same two files are referenced and still hold their rows
+		vpAssert(len(meta.files) == 2 && iw.metadataOf(ida) != nil && iw.metadataOf(idb) != nil, "C13: a merge that did not commit changed what the MetaStore references")
+		if err == nil {
+			// nothing to merge (the two blocks cannot be combined): no store was written to
+			vpAssert(store.nCreated == 2 && len(store.files) == 2, "C13: a merge with nothing to do created files")
+		} else {
+			vpAssert(stats == nil && !errors.Is(err, ErrPostCommitCleanup), "C13: a merge that did not commit reported stats or a post-commit error")
+		}
+		for _, id := range []int{ida, idb} {
+			md := iw.metadataOf(id)
+			vpAssert(store.files[id] != nil, "C13: a source of a merge that did not commit was tombstoned")
+			got := iw.readBlockRows(id, &md.DataBlocks[0])
+			vpAssert(len(got) == 1, "C13: a source of a merge that did not commit no longer holds its row")
+		}
+		// no partial or orphaned output remains in the store (unless its tombstone itself failed)
+		if !fstore.tombFailed {
+			vpAssert(len(store.files) == 2, "C13: a merge that did not commit left an unreferenced output in the DataStore")
+		}
+		return
+	}
+	// committed: exactly the merged file is referenced, it holds both rows, and it reads back
+	vpAssert(stats != nil && (err == nil || errors.Is(err, ErrPostCommitCleanup)), "C13: a committed merge returned no stats or a plain error")
+	vpAssert((err != nil) == fstore.tombFailed, "C13: ErrPostCommitCleanup does not reflect whether source cleanup failed")
+	out := vpFileID(meta.files[0].PointerBytes)
+	vpAssert(out != ida && out != idb && store.files[out] != nil, "C13: the commit does not reference a published output")
+	var all []string
+	md := iw.metadataOf(out)
+	for i := range md.DataBlocks {
+		all = append(all, iw.readBlockRows(out, &md.DataBlocks[i])...)
+	}
+	vpAssert(vpSameMultiset(all, []string{ra[0].text(), rb[0].text()}), "C11/C13: the committed output does not hold exactly the source rows")
+	if !fstore.tombFailed {
+		vpAssert(len(store.files) == 1, "C13: sources of a committed merge were not tombstoned")
+	}
+}
